@@ -29,7 +29,7 @@ CLAUSES = {1: "a finished proposal changed (status / tallies / end reason / ball
            4: "approved by the tally although the strategy expression does not hold",
            5: "rejected by the tally although approval was still reachable",
            6: "special proposal concluded by the tally before a super administrator voted",
-           7: "a refused transaction changed state, or a vote that must be refused was accepted",
+           7: "a refused transaction changed state, or a vote / withdrawal / reserved-method call that must be refused was accepted",
            8: "governed object changed without a proposal about it being created or concluded",
            9: "proposal header / frozen electorate wrong",
            10: "electors counted as available do not cover voters + available non-voters",
@@ -801,7 +801,7 @@ def shrink(ctx, exe, h, want):
             return None
         return [sig(v) == want for v in vs]
 
-    for _ in range(12):
+    for _ in range(8):
         n = len(cur["blocks"])
         if n <= 1:
             break
@@ -926,7 +926,8 @@ def process(ctx, exe, batch, known, stats, do_shrink=True):
         if stats.get("viol:" + sk, 0) >= MAX_PER_SIG:
             stats["viol:" + sk] += 1
             continue
-        if do_shrink and len(h["blocks"]) > 2:
+        if do_shrink and len(h["blocks"]) > 2 and stats.get("viol:" + sk, 0) == 0 and stats.get("shrinks", 0) < 6:
+            stats["shrinks"] = stats.get("shrinks", 0) + 1
             hs = shrink(ctx, exe, h, sig(v))
             if hs is not h:
                 res, _ = run_batch(exe, [hs])
